@@ -198,6 +198,8 @@ PROPS = {
             rapid("cross-process", "TestC09CrossProcess", 12, 60, shards=dict(quick=1, thorough=16)),
             rapid("ranges", "TestC09Ranges", 5000, 50000),
             rapid("ranges-at-volume", "TestC09Volume", 80, 600, shards=dict(quick=4, thorough=16)),
+            rapid("argument-rule", "TestC09ArgumentRule", 150, 1500, shards=dict(quick=1, thorough=4)),
+            enum("checksum-collisions", "TestC09ChecksumCollisions"),
         ],
     ),
     "C10": dict(
